@@ -326,6 +326,7 @@ func (fx *fnExec) execInstr(st *state, in ssa.Instruction) {
 		if v.addr != nil {
 			fx.fail("storing an address value (%s)", x.Val.Name())
 		}
+		fx.fieldDelta(st, x.Addr, a, v.term)
 		fx.storeAddr(st, a, v.term)
 		fx.anchorGhostSets(st, in, nil)
 	case *ssa.UnOp:
@@ -1055,4 +1056,36 @@ func hypothesisText(label, fn, src string) string {
 		return fmt.Sprintf("hypothesis [%s] of %s (assumed model of a library call, not checked): %s", label, fn, src)
 	}
 	return fmt.Sprintf("hypothesis [%s] of %s (side condition of the property statement): %s", label, fn, src)
+}
+
+// fieldDelta: stores to a field declared `fielddelta T.f g` add (new - old) to g[object].
+func (fx *fnExec) fieldDelta(st *state, addrV ssa.Value, a *addr, newTerm string) {
+	fa, ok := addrV.(*ssa.FieldAddr)
+	if !ok || len(fx.g.cs.FieldDelta) == 0 {
+		return
+	}
+	stT := deref(fa.X.Type())
+	n := namedOf(stT)
+	if n == nil || n.Obj().Pkg() == nil {
+		return
+	}
+	fname := structOf(stT).Field(fa.Field).Name()
+	for _, fd := range fx.g.cs.FieldDelta {
+		if fd.Type != n.Obj().Name() || fd.Field != fname || fd.Pkg != n.Obj().Pkg().Path() {
+			continue
+		}
+		o := fx.operand(st, fa.X)
+		if o.addr != nil {
+			return
+		}
+		g := fx.g.cs.Ghosts[fd.Ghost]
+		if g == nil {
+			fx.fail("fielddelta names unknown ghost %s", fd.Ghost)
+		}
+		old := fx.loadAddr(st, a)
+		cur := fx.ghostGet(st, fd.Ghost)
+		n2 := fx.fresh("G_"+fd.Ghost, ghostSort(g.Sort))
+		fx.assert(fmt.Sprintf("(= %s (store %s %s (+ (select %s %s) (- %s %s))))", n2, cur, o.term, cur, o.term, newTerm, old))
+		st.ghost[fd.Ghost] = n2
+	}
 }
